@@ -11,7 +11,7 @@ Tr == ndJsonDeserialize(IOEnv.TRACE)
 VARIABLES l, tree, faults, pos, failed, diverged
 vars == <<l, tree, faults, pos, failed, diverged>>
 
-NoTree == [main |-> <<>>, drop |-> <<>>, mshape |-> "both", dshape |-> "both"]
+NoTree == [main |-> <<>>, drop |-> <<>>, mshape |-> "both", dshape |-> "both", pd |-> <<>>]
 Init == l = 1 /\ tree = NoTree /\ faults = NoFaults(NoTree) /\ pos = 0 /\ failed = FALSE /\ diverged = FALSE
 IsEvent(e) == l <= Len(Tr) /\ Tr[l].e = e /\ l' = l + 1
 ShapeName(c) == CASE c = "b" -> "both" [] c = "n" -> "nogroup" [] OTHER -> "section"
@@ -19,7 +19,9 @@ Seq2Set(s) == {s[i] : i \in 1..Len(s)}
 
 TBegin == /\ IsEvent("begin")
           /\ LET t == [main |-> Tr[l].main, drop |-> [i \in 1..Len(Tr[l].drop) |-> Seq2Set(Tr[l].drop[i])],
-                       mshape |-> MShape(Tr[l].shp), dshape |-> DShape(Tr[l].shp)]
+                       mshape |-> MShape(Tr[l].shp), dshape |-> DShape(Tr[l].shp),
+                       \* drop-in directory (1 or 2, CONFIG_DIRS / econf_set_conf_dirs lists) of every name per layer
+                       pd |-> IF "pd" \in DOMAIN Tr[l] THEN Tr[l].pd ELSE [i \in 1..Len(Tr[l].main) |-> [n \in 1..NNames |-> 1]]]
                  fl == Tr[l].faults IN          \* list of [f, x]
              /\ tree' = t
              \* explicit faults (callback verdicts, malformed content) + restrictions: the violations are
